@@ -18,7 +18,44 @@ from smt import Q
 
 
 def model_slice_iter(engine, st, fr, callee, args, ops):
-    return sym.Adt("SliceIter", None, [args[0]])
+    a = args[0]
+    v = sym._deref_arg(engine, st, a) if isinstance(a, sym.Ref) else a
+    if isinstance(v, sym.Adt) and v.ty == "TableSuffix":
+        return sym.Adt("SliceIter", None, [v.fields[0], v.fields[1]])
+    if isinstance(a, sym.Adt) and a.ty == "TableSuffix":
+        return sym.Adt("SliceIter", None, [a.fields[0], a.fields[1]])
+    return sym.Adt("SliceIter", None, [a, 0])
+
+
+def model_range_from(engine, st, fr, callee, args, ops):
+    """`table[start..]`: the elements from `start` on (panics when start > len). A start that depends on the looked-up number
+    is split into its feasible concrete values (at most 8)."""
+    base_ref = args[0]
+    arr = sym._deref_arg(engine, st, base_ref)
+    rng = args[1]
+    start = rng.fields[0] if isinstance(rng, sym.Adt) else rng
+    n = len(arr.items)
+    vals = []
+    sv = z3.simplify(start)
+    if z3.is_bv_value(sv):
+        vals = [(True, sv.as_long())]
+    else:
+        s_ = z3.Solver()
+        for c in st.pc:
+            s_.add(c)
+        while len(vals) < 9 and s_.check() == z3.sat:
+            v = s_.model().eval(start, model_completion=True).as_long()
+            vals.append((start == z3.BitVecVal(v, start.size()), v))
+            s_.add(start != z3.BitVecVal(v, start.size()))
+        if len(vals) > 8:
+            raise mir.Unsupported("slice start takes more than 8 values")
+    alts = []
+    for c, v in vals:
+        if v > n:
+            alts.append((c, sym.Panic(("slice start index out of range", fr.fn.name, fr.bb))))
+        else:
+            alts.append((c, sym.Adt("TableSuffix", None, [base_ref, v])))
+    return alts[0][1] if len(alts) == 1 and alts[0][0] is True else sym.Fork(alts)
 
 
 def model_find(engine, st, fr, callee, args, ops):
@@ -26,6 +63,7 @@ def model_find(engine, st, fr, callee, args, ops):
     it = sym._deref_arg(engine, st, args[0])
     clo = args[1]
     sl = it.fields[0]
+    first = it.fields[1] if len(it.fields) > 1 else 0
     arr = sym._deref_arg(engine, st, sl)
     fn = engine.resolve_fn(clo.name if isinstance(clo, sym.FnV) else str(clo))
     # closure value lives in a fresh cell so that `&mut closure` can be passed
@@ -33,6 +71,8 @@ def model_find(engine, st, fr, callee, args, ops):
     st.mem[cell] = clo
     alts = []
     for i, item in enumerate(arr.items):
+        if i < first:
+            continue
         item_ref = sym.Ref(sl.root, sl.path + (("index_c", i),))
         cellr = ("h", "itemref%d_%d" % (st.uid, i))
         st.mem[cellr] = item_ref
@@ -55,6 +95,7 @@ def closure_name_of(callee):
 
 
 MODELS = [
+    (r"Index<(std::ops::)?RangeFrom<usize>>>::index$", model_range_from),
     (r"^core::slice::<impl \[.*\]>::iter$", model_slice_iter),
     (r"as Iterator>::find::<\{closure@", model_find),
 ]
